@@ -41,6 +41,7 @@ GRIDS = {
     "g4": dict(T_MIN=10, NT=9, DT=25, DT_SAMPLE=50, P_MIN=0, DELTA_P=1.0, DELTA_P_SAMPLE=4.0, NTV=21),     # sampling strides differ from
     "g5": dict(T_MIN=0, NT=7, DT=100, DT_SAMPLE=300, P_MIN=1, DELTA_P=0.5, DELTA_P_SAMPLE=0.5, NTV=25),   # the grid steps (not used by cij's writer)
     "g6": dict(T_MIN=298.15, NT=4, DT=100, DT_SAMPLE=100, P_MIN=0, DELTA_P=2.0, DELTA_P_SAMPLE=2.0, NTV=21),  # fractional T_MIN with an integral step
+    "g8": dict(T_MIN=0, NT=3, DT=500, DT_SAMPLE=500, P_MIN=20, DELTA_P=-0.5, DELTA_P_SAMPLE=-0.5, NTV=33),      # a pressure grid running downwards
     "g7": dict(T_MIN=1273.15, NT=3, DT=250, DT_SAMPLE=250, P_MIN=0.25, DELTA_P=1.5, DELTA_P_SAMPLE=1.5, NTV=21),
 }
 SYSTEMS = {"9": "orthorhombic", "13": "monoclinic", "21": None}
@@ -347,7 +348,7 @@ def run_sequence(case):
 
 
 def explore(ctx):
-    ctx.rule = ("complete product: 8 grids (incl. T_MIN>0, fractional DT, fractional T_MIN with integral DT, P_MIN<0, DT_SAMPLE != DT, DELTA_P_SAMPLE != DELTA_P) x 3 component sets (9/13/21) x "
+    ctx.rule = ("complete product: 9 grids (one with a descending pressure grid) (incl. T_MIN>0, fractional DT, fractional T_MIN with integral DT, P_MIN<0, DT_SAMPLE != DT, DELTA_P_SAMPLE != DELTA_P) x 3 component sets (9/13/21) x "
                 "2 bases; for each: every keyword and alias of the writer rules (read at run time, expectations transcribed from the "
                 "documented table) written through ResultsWriter into its own directory and re-read by an independent parser; unit and "
                 "file-name overrides; write_output() with a mixed output section; every documented keyword and alias requested through the settings file's output section in 4 forms (string, mapping, +unit, +fname) and rule by rule; all ordered sequences of <=2 (<=3 thorough) requests from a "
